@@ -23,6 +23,9 @@ def run(ck, facts, tier):
     alias_rows(ck, facts, "C07.ALIAS-NOT-FILTERED")
     from shared import clauses as _clx
     _clx.clauses_no_drop(ck, facts, "C07.CLAUSES-NO-DROP")
+    # the AliasEq placeholder fallback (low priority, tried first) is only overridden if the Normalize clause after it is tried too:
+    # the clause loop of the recursive solver has no exit but the trivially-true one - not even on interruption
+    _clx.every_clause(ck, facts, "C07.EVERY-CLAUSE")
     R = "C07.NORMALIZE-FROM-IMPL"
     ck.rule(R, "K2: the Normalize-From-Impl clause has consequence Normalize { alias: Projection(projection), ty: assoc_ty_value.ty } and conditions "
                "impl_where_clauses.chain(assoc_ty_where_clauses), each substituted; "
